@@ -29,6 +29,13 @@ func VP_C15_verify() {
 	vpObserveBool("ok", err == nil)
 	if err != nil {
 		vpReach("refused")
+		// a refusal must not disclose the token's claims (the endpoint echoes the error text)
+		if vpTokClaimsMade {
+			vpAssert(!vpStrContains(err.Error(), vpTokSubject), "refusal-text-does-not-disclose-the-subject")
+			if len(vpTokIssuer) == 5 && vpTokIssuer != "rdpgw" {
+				vpAssert(!vpStrContains(err.Error(), vpTokIssuer), "refusal-text-does-not-disclose-the-issuer")
+			}
+		}
 		return
 	}
 	if mode == 2 {
@@ -52,7 +59,7 @@ func VP_C15_verify() {
 		vpAssert(vpTokKind == 2, "encrypt-only-mode-accepts-only-plain-encrypted-tokens")
 	}
 	vpAssert(vpTokIssuer == "rdpgw", "accepted-token-names-the-gateway-as-issuer")
-	now := int64(vpU64("now1"))
+	now := vpLastNow // the latest instant handed to the code (= the harness's presentation time if the code never asked)
 	if vpTokExp != nil {
 		vpAssert(int64(*vpTokExp) >= now-60, "accepted-token-not-expired-beyond-leeway")
 	}
@@ -91,7 +98,7 @@ func VP_C15_mint() {
 	if vpMintClaims == nil {
 		return
 	}
-	now := int64(vpU64("now1"))
+	now := vpLastNow // the latest instant handed to the code (= the harness's presentation time if the code never asked)
 	vpAssert(vpMintClaims.Subject == user && vpMintClaims.Issuer == "rdpgw", "subject-is-the-user-issuer-is-the-gateway")
 	vpAssert(vpMintClaims.Expiry != nil, "has-expiry")
 	if vpMintClaims.Expiry != nil {
@@ -122,7 +129,7 @@ func VP_C12_queryinfo() {
 		vpAssert(a == "HS256", "query-token-is-hs256")
 	}
 	vpAssert(issuer == "" || vpTokIssuer == issuer, "query-token-issuer-as-configured")
-	now := int64(vpU64("now1"))
+	now := vpLastNow // the latest instant handed to the code (= the harness's presentation time if the code never asked)
 	if vpTokExp != nil {
 		vpAssert(int64(*vpTokExp) >= now-60, "query-token-not-expired-beyond-leeway")
 	}
@@ -157,4 +164,15 @@ func VP_C12_accept() {
 	ok, _ := CheckSession(CheckHost)(vpCtxWith(tun, id), fileHost)
 	vpReach("accepted")
 	vpAssert(ok, "host-and-token-of-an-issued-file-are-accepted-by-the-tunnel-checks")
+}
+
+func vpStrContains(s, sub string) bool {
+	if len(sub) == 0 {
+		return false
+	}
+	r := false
+	for i := 0; i+len(sub) <= len(s); i++ {
+		r = vpOr(r, s[i:i+len(sub)] == sub)
+	}
+	return r
 }
